@@ -451,6 +451,27 @@ pub fn suite_reveal(out: &mut Out, tier: &str, rng: &mut Rng) {
             }
         }
     }
+    // every decrypted length that selects a payload of 0..30 octets, for every type class: the per-type
+    // readers behind reveal() see every short / exact / long payload
+    {
+        let nblk = 2usize;
+        for l in 6u32..=36 {
+            for &t in types.iter() {
+                if tier != "thorough" && (t as u32 + l) % 2 == 1 && t != 1 && t != 12 {
+                    continue;
+                }
+                let secret = secret_of(rng);
+                let rv = rng.bytes(4);
+                let mut plain = (l as u16).to_be_bytes().to_vec();
+                let mut body = vec![0u8, 1, 0, 1];
+                body.extend(std::iter::repeat(65u8).take(nblk * 16));
+                plain.extend_from_slice(&body[..nblk * 16 - 2]);
+                let value = craft_hidden(t, &plain, &secret, &rv);
+                out.emit(json!({"op": "reveal", "v": {"k": "Hidden", "f": [t, bytes_json(&value)]},
+                                "secret": bytes_json(&secret), "rv": bytes_json(&rv), "crafted_len": l}));
+            }
+        }
+    }
     // (a) arbitrary octets under arbitrary keys; (c) empty and misaligned values; (d) non-hidden
     let n = counts(tier, 150, 6000);
     for _ in 0..n {
@@ -488,6 +509,15 @@ pub fn suite_hide_reveal(out: &mut Out, tier: &str, rng: &mut Rng) {
             out.emit(json!({"op": "hide_reveal", "v": a, "secret": bytes_json(&secret_of(rng)), "rv": bytes_json(&rng.bytes(4)),
                             "lp": bytes_json(&lp), "ap": bytes_json(&rng.bytes(16))}));
         }
+    }
+    // long original values: the original-length subfield needs its high octet from 250 octets on
+    for n in [249usize, 250, 251, 506, 1002] {
+        if tier != "thorough" && n > 506 {
+            continue;
+        }
+        let lp = rng.rbytes(0, 5);
+        out.emit(json!({"op": "hide_reveal", "v": host(n, rng), "secret": bytes_json(&secret_of(rng)), "rv": bytes_json(&rng.bytes(4)),
+                        "lp": bytes_json(&lp), "ap": bytes_json(&rng.bytes(16))}));
     }
     // hidden stays hidden
     out.emit(json!({"op": "hide_reveal", "v": gen_hidden(rng, 32), "secret": [7], "rv": [1, 2, 3, 4], "lp": [], "ap": bytes_json(&[0u8; 16])}));
